@@ -56,7 +56,8 @@
 //!   because the term grammar had no nested shape: casts and negations each wrapped a bare column only. The term
 //!   `T::CastNeg` (`CAST(-c AS T)` / `TRY_CAST(-c AS T)`, weight 3 of 21) was added; verdict with
 //!   `mutrun /verif/seeded/C22-a/patch.diff -- ./check C22 quick`: see SEEDED-VERDICT below.
-//! SEEDED-VERDICT: pending
+//! SEEDED-VERDICT: VIOLATION after 10 cases (`CAST((- c0) AS Decimal128(12,3)) < 0.000`, container {1.00} pruned on
+//!   `c0_min < 0.00`); the unchanged tree exits 0 on seeds 0..4 and 21..24.
 //! Candidate repairs: /verif/fixes/C22-*.diff (one per finding); with all four applied the four regression cases
 //! pass and `./check C22 quick` exits 0 (seeds 0, 1) — probes/run-all-log.txt.
 use std::collections::HashSet;
